@@ -37,6 +37,7 @@ func runC16(c *Ctx) {
 	c16Accept(c)
 	c16Capacity(c)
 	c16HeaderLast(c)
+	c16HeaderComplete(c)
 	c16Order(c)
 	c16NoReorder(c)
 	c16PeekLifetime(c)
@@ -1314,4 +1315,108 @@ func c16PeekLifetime(c *Ctx) {
 		}
 	}
 	c.CheckConst(rule, "matcher|borrowing-calls", true, 0, fmt.Sprintf("%d Peek/ReadSlice calls examined in go-cdb (none means nothing is borrowed)", n))
+}
+
+// c16HeaderComplete implements C16.header-complete: all 256 header entries carry the position where their table would
+// be, including the entries of EMPTY tables: Dump reads the first header word as "end of data", and dump→make must
+// reproduce the file byte for byte. An iteration of the table loop that continues without storing the position
+// (seed c16f: empty tables left at (0, 0)) makes Dump of a file whose table 0 is empty emit nothing.
+func c16HeaderComplete(c *Ctx) {
+	rule := "C16.header-complete"
+	c.Rule(rule, "A2 in writer.Close: inside the loop over the 256 tables every path from the loop body's entry back to the loop header passes a putNum into the header at offset 8·i (the position word); only error returns may skip it")
+	fn := c.Func("go-cdb", "(*writer).Close")
+	c.Examined(fn)
+	isPosPut := func(ci ssa.CallInstruction) bool {
+		sf := ci.Common().StaticCallee()
+		if sf == nil || sf.Name() != "putNum" || len(ci.Common().Args) < 2 {
+			return false
+		}
+		sl, ok := ci.Common().Args[0].(*ssa.Slice)
+		if !ok || sl.Low == nil {
+			return false
+		}
+		// low = i*8 or i<<3, without "+4"
+		switch b := unwrap(sl.Low).(type) {
+		case *ssa.BinOp:
+			if b.Op == token.MUL {
+				if k, ok := constInt(b.Y); ok && k == 8 {
+					return true
+				}
+				if k, ok := constInt(b.X); ok && k == 8 {
+					return true
+				}
+			}
+			if b.Op == token.SHL {
+				if k, ok := constInt(b.Y); ok && k == 3 {
+					return true
+				}
+			}
+		}
+		return false
+	}
+	var puts []ssa.CallInstruction
+	for _, ci := range callInstrs(fn) {
+		if isPosPut(ci) {
+			puts = append(puts, ci)
+		}
+	}
+	if len(puts) == 0 {
+		c.Undecided(rule, fnName(fn)+"|position-puts", fn.Pos(), "no putNum(header[8*i:], …) found")
+		return
+	}
+	loops := naturalLoops(fn)
+	checked := 0
+	for h, body := range loops {
+		in := false
+		for _, p := range puts {
+			if body[p.Block()] {
+				in = true
+			}
+		}
+		if !in {
+			continue
+		}
+		// the outermost loop containing the puts: skip inner loops (they do not contain all puts' blocks' loop header)
+		inner := false
+		for h2, b2 := range loops {
+			if h2 != h && b2[h] {
+				inner = true
+			}
+		}
+		if inner {
+			continue
+		}
+		checked++
+		stop := map[*ssa.BasicBlock]bool{}
+		for _, p := range puts {
+			stop[p.Block()] = true
+		}
+		skips := false
+		for _, s := range h.Succs {
+			if !body[s] || s == h {
+				continue
+			}
+			// from the body entry, can the header be reached again without passing a position put?
+			seen := map[*ssa.BasicBlock]bool{}
+			var walk func(b *ssa.BasicBlock)
+			walk = func(b *ssa.BasicBlock) {
+				if seen[b] || stop[b] || !body[b] {
+					return
+				}
+				seen[b] = true
+				for _, n := range b.Succs {
+					if n == h {
+						skips = true
+						return
+					}
+					walk(n)
+				}
+			}
+			walk(s)
+		}
+		c.Check(rule, fnName(fn)+"|every-table-gets-its-position", !skips, h.Instrs[0].Pos(), "an iteration of the table loop that continues without writing the header position word")
+	}
+	if checked == 0 {
+		c.Undecided(rule, fnName(fn)+"|table-loop", fn.Pos(), "the position puts are not inside a loop")
+	}
 }
